@@ -12,6 +12,11 @@ use super::util::GUID;
 /// Answer the client-side SASL handshake the library performs (EXTERNAL, optional fd negotiation) until BEGIN.
 /// Returns whether fd passing was agreed, and any bytes that followed BEGIN in the same read.
 pub fn raw_server_handshake(sock: &mut UnixStream, agree_fds: bool) -> io::Result<(bool, Vec<u8>)> {
+    raw_server_handshake_with(sock, agree_fds, GUID)
+}
+
+/// The same, answering AUTH with `OK <guid_text>` (whatever that text is).
+pub fn raw_server_handshake_with(sock: &mut UnixStream, agree_fds: bool, guid_text: &str) -> io::Result<(bool, Vec<u8>)> {
     let mut buf: Vec<u8> = Vec::new();
     let mut agreed = false;
     loop {
@@ -25,7 +30,7 @@ pub fn raw_server_handshake(sock: &mut UnixStream, agree_fds: bool) -> io::Resul
             let line: Vec<u8> = buf.drain(..=lf).collect();
             let text = String::from_utf8_lossy(&line).trim_matches(|c: char| c == '\0' || c == '\r' || c == '\n' || c == ' ').to_string();
             if text.starts_with("AUTH") {
-                sock.write_all(format!("OK {GUID}\r\n").as_bytes())?;
+                sock.write_all(format!("OK {guid_text}\r\n").as_bytes())?;
             } else if text.starts_with("NEGOTIATE_UNIX_FD") {
                 if agree_fds {
                     agreed = true;
